@@ -85,7 +85,9 @@ def stepTok (s : St) (tok : String) : St × String :=
     | none => (s, "E")
   | ["cp", d, sr, _how] =>
     match d.toNat?, sr.toNat? with
-    | some d, some sr => match copyBlock s d sr with | some s' => (s', "ok") | none => (s, "E")
+    | some d, some sr =>
+      if d = sr then (match getBlock s d with | some _ => (s, "ok") | none => (s, "E"))      -- x = x changes nothing
+      else match copyBlock s d sr with | some s' => (s', "ok") | none => (s, "E")
     | _, _ => (s, "bad-op")
   | ["w", _] => (s, "-")
   | ["st", b, n] =>
